@@ -34,6 +34,9 @@ type c18Act struct {
 	// HoldClear (kind answersend): the reader is descheduled right before it clears the
 	// read deadline after this answer, until the next request has armed it.
 	HoldClear bool `json:"hold_clear,omitempty"`
+	// InWrite (kind cancelsend): the call's context ends while its request is being written - after
+	// the client's "is the context done" check, before send() goes on past the write
+	InWrite bool `json:"in_write,omitempty"`
 }
 
 type c18Case struct {
@@ -191,7 +194,12 @@ func c18RunInBubble(c c18Case) (out Outcome) {
 	var gateCall *c18Call
 	var mu sync.Mutex
 	opts := memconn.Options{}
+	var cancelInWrite *c18Call
 	opts.AfterWrite = func(data []byte) {
+		if cw := cancelInWrite; cw != nil && len(data) >= 8 && !bytes.HasPrefix(data, wire.Preamble) {
+			cancelInWrite = nil
+			cw.cancel()
+		}
 		call := gateCall
 		if call == nil || len(data) < 8 || bytes.HasPrefix(data, wire.Preamble) {
 			return
@@ -275,6 +283,7 @@ func c18RunInBubble(c c18Case) (out Outcome) {
 	}()
 	nextMarker := 0
 	var sendGate2 bool
+	cancelNextInWrite := false
 	send := func(batched, cancelIt, gate bool) *c18Call {
 		nextMarker++
 		ctx, cancel := context.WithCancel(context.Background())
@@ -302,6 +311,10 @@ func c18RunInBubble(c c18Case) (out Outcome) {
 			mu.Unlock()
 		}
 		sendGate2 = false
+		if cancelNextInWrite && !batched {
+			cancelInWrite = cc
+		}
+		cancelNextInWrite = false
 		cc.sentAt = time.Now()
 		env.rc.QueueRPC(g)
 		if cancelIt {
@@ -336,6 +349,7 @@ func c18RunInBubble(c c18Case) (out Outcome) {
 		case "sendbatched":
 			send(true, false, false)
 		case "cancelsend":
+			cancelNextInWrite = a.InWrite
 			send(false, true, false)
 		case "answer":
 			srv.answer(a.I)
@@ -509,6 +523,7 @@ func c18Gen(t *rapid.T) c18Case {
 			for i := 0; i < k; i++ {
 				kind := rapid.SampledFrom([]string{"send", "send", "sendbatched", "cancelsend"}).Draw(t, "skind")
 				act := c18Act{Kind: kind, Gate: kind == "send" && rapid.IntRange(0, 2).Draw(t, "gate") == 0}
+				act.InWrite = kind == "cancelsend" && rapid.Bool().Draw(t, "inwrite")
 				act.Gate2 = kind == "send" && !act.Gate && rapid.IntRange(0, 2).Draw(t, "gate2") == 0
 				c.Acts = append(c.Acts, act)
 			}
@@ -533,6 +548,8 @@ func c18Gen(t *rapid.T) c18Case {
 		case "send":
 			a.Gate = rapid.IntRange(0, 2).Draw(t, "gate") == 0
 			a.Gate2 = !a.Gate && rapid.IntRange(0, 2).Draw(t, "gate2") == 0
+		case "cancelsend":
+			a.InWrite = rapid.Bool().Draw(t, "inwrite")
 		case "answersend":
 			a.I = rapid.IntRange(0, 5).Draw(t, "i")
 			a.HoldClear = rapid.Bool().Draw(t, "holdclear")
@@ -555,7 +572,7 @@ func TestC18_ReadDeadline(t *testing.T) {
 	rec := evid.New("C18", "TestC18_ReadDeadline",
 		"rapid, virtual time: action scripts of 1..25 steps on one region client over an in-memory connection whose "+
 			"peer is the harness: send (unbatched; optionally with the writer held until the reader has consumed the "+
-			"response to that very request), send batched, send-and-cancel, answer the i-th outstanding request (any "+
+			"response to that very request), send batched, send-and-cancel (after queueing, or while the request is being written), answer the i-th outstanding request (any "+
 			"order, also for cancelled calls and multi-requests), let time pass (0.001x .. 50x the read timeout); read "+
 			"timeout in {10ms..60s}. Invariant at every quiescence point: read deadline armed <=> the server holds "+
 			"unanswered requests, and armed deadline == last send + read timeout; a silent server fails every "+
